@@ -1,0 +1,16 @@
+//go:build verif
+
+package process
+
+// Contracts for process liveness (property C19).
+// Comment-only file: it is compiled only with -tags verif and contains no code.
+
+// What the last liveness test was about and what it said (ghost record of IsRunning).
+//@ ghost var aliveChecks int
+//@ ghost var lastAlivePid int
+//@ ghost var lastAlive bool
+
+//@ func IsRunning
+//@   trusted
+//@   modifies aliveChecks, lastAlivePid, lastAlive
+//@   ensures aliveChecks == old(aliveChecks) + 1 && lastAlivePid == pid && lastAlive == result
